@@ -185,6 +185,99 @@ def r1_inventory(ctx, sym):
                   function=fn._qualname, sample={'object': key, 'disposition': what, 'sites': len(sites)})
 
 
+def r1c_loaders_build_fresh_types(ctx, sym):
+    """Every loader registered with register_builtin_module, executed abstractly twice: TIFA mutates module types in
+    place (assigning `plt.title = ...` in a submission adds a field), so the two results must not share any type
+    object - a type kept at module level and re-wrapped on every reset carries one submission's edits to the next."""
+    from .. import symexec
+    from ..fdeval import Obj, Raised, Inconclusive
+    tmod = ctx.repo.module('pedal.types.new_types')
+    type_classes = set(tmod.classes)
+    n = 0
+    for m in ctx.repo.modules.values():
+        for c in ast.walk(m.tree):
+            if not (isinstance(c, ast.Call) and (call_name(c) or '').split('.')[-1] == 'register_builtin_module'
+                    and len(c.args) == 2 and enclosing_function(c) is None):
+                continue
+            try:
+                mod_name = sym.const(m, c.args[0])
+            except KeyError:
+                mod_name = norm(c.args[0])
+            loader = c.args[1]
+            if isinstance(loader, ast.Name):
+                r = sym.resolve_name(m, loader.id)
+                if not (isinstance(r, tuple) and r[0] == 'func'):
+                    raise AnalysisError("C13 R1: loader of %r does not resolve to a function" % (mod_name,))
+                lm, lfn = r[1], r[2]
+                ctx.analysed_function(lm, lfn)
+            elif isinstance(loader, ast.Lambda):
+                lm, lfn = m, loader
+            else:
+                raise AnalysisError("C13 R1: loader of %r is neither a function name nor a lambda" % (mod_name,))
+            n += 1
+            made = []
+
+            def maker(cls_name):
+                def make(*a, **k):
+                    o = Obj(cls_name, ctor_args=a, ctor_kwargs=k)
+                    o.attrs['__open__'] = True
+                    made.append(o)
+                    return o
+                make._fd_callable = True
+                return make
+            fd = symexec.new_fd(sym, lm, calls={k: maker(k) for k in type_classes})
+            results = []
+            try:
+                for _ in range(2):
+                    if isinstance(lfn, ast.Lambda):
+                        fd._mods.append(lm)
+                        try:
+                            results.append(fd.eval(lfn.body, {}))
+                        finally:
+                            fd._mods.pop()
+                    else:
+                        results.append(fd.call_function(lfn, []))
+            except (Raised, Inconclusive) as e:
+                # loader outside the fragment: fall back to "the loader reads no module-level type object"
+                names = {x.id for x in ast.walk(lfn) if isinstance(x, ast.Name) and isinstance(x.ctx, ast.Load)}
+                shared = []
+                for nm in sorted(names):
+                    b = sym.lookup(lm.name, nm)
+                    if b is not None and b.kind == 'assign' and isinstance(b.node, ast.Call) and \
+                            (call_name(b.node) or '').split('.')[-1] in type_classes:
+                        shared.append(nm)
+                ctx.check(not shared, 'R1', 'loader:%s:fresh-types' % mod_name, lm, lfn,
+                          "the loader of TIFA's %r module type hands out module-level type object(s) %s on every reset "
+                          "(syntactic fallback: %s)" % (mod_name, shared, e),
+                          "a submission assigning to an attribute of that module changes its type for every later "
+                          "submission in the process")
+                continue
+
+            def reach(v, acc):
+                if isinstance(v, Obj):
+                    if id(v) in acc:
+                        return
+                    acc[id(v)] = v
+                    for x in v.attrs.values():
+                        reach(x, acc)
+                elif isinstance(v, dict):
+                    for x in list(v.keys()) + list(v.values()):
+                        reach(x, acc)
+                elif isinstance(v, (list, tuple, set, frozenset)):
+                    for x in v:
+                        reach(x, acc)
+            a_, b_ = {}, {}
+            reach(results[0], a_)
+            reach(results[1], b_)
+            shared = [o for k, o in a_.items() if k in b_ and o in made]
+            ctx.check(not shared, 'R1', 'loader:%s:fresh-types' % mod_name, lm, lfn,
+                      "two successive resets of TIFA's %r module type share %d type object(s) (%s): the object lives at "
+                      "module level and is only re-wrapped" % (mod_name, len(shared), sorted({o._name for o in shared})),
+                      "a submission with `plt.title = 'Ages'` turns pyplot.title into a string for every later "
+                      "submission: plt.title('Ages') is then reported as 'Not a Function'")
+    ctx.floor('R1', 'builtin module loaders', n, 12)
+
+
 def r1b_reset_rebuilds(ctx, sym):
     """reset_builtin_modules, executed abstractly on a pre-filled table, must leave no entry of the previous analysis."""
     from ..fdeval import FD, Raised, Inconclusive
@@ -481,6 +574,7 @@ def run(ctx):
     sym = Symbols(ctx.repo)
     r1_inventory(ctx, sym)
     r1b_reset_rebuilds(ctx, sym)
+    r1c_loaders_build_fresh_types(ctx, sym)
     r2_clear_complete(ctx, sym)
     r3_lazy_tool_reset(ctx, sym)
     r4_entry_points(ctx, sym)
